@@ -301,7 +301,7 @@ func run(c *mon.Ctx) {
 	c.Floor("setpayload.n_equal_capacity", 500)
 	c.Floor("setpayload.n_above_capacity", 500)
 	c.Floor("setpayload.n_below_capacity", 500)
-	reps := c.N(12, 120)
+	reps := c.N(12, 1500)
 	c.Exhaustive("every adaptation_field_length 0..183 (AFC 11 / 10) and AFC 01, each with boundary payload lengths", 185)
 	c.Stream("by-length", 185, func(i int, r *gen.Rand) {
 		for k := 0; k < reps; k++ {
@@ -337,7 +337,7 @@ func run(c *mon.Ctx) {
 			}
 		}
 	})
-	c.Stream("random", c.N(20000, 600000), func(i int, r *gen.Rand) {
+	c.Stream("random", c.N(20000, 20000000), func(i int, r *gen.Rand) {
 		m := ref.GenTSPacket(r, 0, -1)
 		partition(c, &m)
 		setPayload(c, &m, r.Intn(201), r)
@@ -385,5 +385,5 @@ func run(c *mon.Ctx) {
 			}
 		}
 	})
-	c.Stream("creation", c.N(5000, 200000), func(i int, r *gen.Rand) { creation(c, r) })
+	c.Stream("creation", c.N(5000, 4000000), func(i int, r *gen.Rand) { creation(c, r) })
 }
